@@ -94,7 +94,8 @@ def key_changing_update_before(case, sdk, step, table_hex=None):
             continue
         for name in key_attrs(case, op["table"]):
             a, b = item_get(op.get("keyItem", []), name), item_get(o["item"], name)
-            if a is MISSING or b is MISSING or canon(a) != canon(b):
+            # the key string is built from the text of the value: another spelling of the same number changes it too
+            if a is MISSING or b is MISSING or a != b:
                 return True
     return False
 
@@ -113,6 +114,55 @@ def _(prop, case, v):
                             "pages-unbounded", "pages-unfinished", "pages-lost-after-delete", "order", "describe-index-count",
                             "batchget-responses", "delete-old-item", "cond-should-pass", "cond-should-fail") and \
         key_changing_update_before(case, v.get("sdk", "v2"), v.get("step", 10 ** 9), case["ops"][v["step"]].get("table") if "step" in v else None)
+
+
+def respelt_number_keys(case):
+    """the history uses two spellings of one number as values of a number-typed key attribute"""
+    import judges
+    seen = {}
+    types = {}
+    for op in case["ops"]:
+        if op["op"] == "createTable" and op.get("key"):
+            k = op["key"]
+            for a in [k["hash"]] + ([k["range"]] if k.get("range") else []):
+                if judges.h2s(a[1]) == "N":
+                    types.setdefault(op["table"], set()).add(a[0])
+    def visit(table, it):
+        for name, v in it or []:
+            if name in types.get(table, ()) and tag(v) == "N":
+                try:
+                    val = spec.num(v["N"])
+                except Exception:
+                    continue
+                seen.setdefault((table, name, val), set()).add(v["N"])
+    for op in case["ops"]:
+        tb = op.get("table")
+        for f in ("item", "keyItem", "startKey"):
+            visit(tb, op.get(f))
+        for tn, rs in op.get("wreqs") or []:
+            for r in rs:
+                visit(tn, r.get("put")); visit(tn, r.get("del"))
+        for tn, ks in op.get("greqs") or []:
+            for kk in ks:
+                visit(tn, kk)
+    return any(len(sp) > 1 for sp in seen.values())
+
+
+@rule("KF-C13-number-keys-by-text")
+def _(prop, case, v):
+    """the violation disappears when number keys are identified by their text instead of their value"""
+    if case.get("kind") != "hist" or "step" not in v or not respelt_number_keys(case):
+        return False
+    import judges
+    checks = judges.CHECKS.get(prop, {"crash"})
+    judges.TEXT_KEYS = True
+    try:
+        again = judges.run_world(case, v.get("sdk", "v2") if v.get("sdk") in ("v1", "v2") else "v2", checks)
+    except Exception:
+        return False
+    finally:
+        judges.TEXT_KEYS = False
+    return not any(x.get("step") == v["step"] and x.get("sig") == v.get("sig") for x in again)
 
 
 @rule("KF-C08-batch-partial")
